@@ -17,6 +17,7 @@ import EinxModel.Driver.Elab
 import EinxModel.Driver.Alias
 import EinxModel.Driver.Optimize
 import EinxModel.Driver.Denote
+import EinxModel.Driver.Exec
 /-! Line-protocol driver: one JSON request per input line, one JSON answer per output line. -/
 open Lean Einx.Driver
 
@@ -40,6 +41,7 @@ def dispatch (j : Json) : R Json := do
   | "writes" | "writes_prog" | "alias_table" => Einx.Driver.Alias.handle j
   | "equiv" | "equiv_progs" | "kernel" => Einx.Driver.Optimize.handle j
   | "denote_fun" => Einx.Driver.Denote.handle j
+  | "exec_check" => Einx.Driver.Exec.handle j
   | "update_denote" | "update_lower" | "update_get" | "update_addr" | "np_put" | "np_ufunc_at" | "assignments" =>
     Einx.Driver.Update.handle j
   | k => throw s!"unknown kind {k}"
